@@ -60,7 +60,7 @@ const (
 	//   0123456789abcdef0123456789abcdef
 	tokenMap = "" +
 		".........GJ..G.................." + // 0x00
-		"G.I.u..IdpuuGuucuuuuuuuuuuI.u.uu" + // 0x20
+		"G.I.u..IdpuuIuucuuuuuuuuuuI.u.uu" + // 0x20
 		"uuuuuuuuuuuuuuuuuuuuuuuuuuuk.muu" + // 0x40
 		".uuuuuuuuuuuuuuuuuuuuuuuuuul.nu." + // 0x60
 		"uuuuuuuuuuuuuuuuuuuuuuuuuuuuuuuu" + // 0x80
